@@ -5,6 +5,7 @@ package corerad
 import (
 	"encoding/json"
 	"fmt"
+	"net"
 	"net/http/httptest"
 	"net/netip"
 	"sort"
@@ -75,7 +76,15 @@ func c17SchedScenario(c c17SchedCase) *vsched.Scenario {
 				return nil
 			}
 			h := crhttp.NewHandler(a.cctx.ll, a.st, *cfg, nil)
-			initialised := func() bool { return len(a.Writes()) > 0 }
+			prepared := false
+			initialised := func() bool {
+				if c.Phase == "prepare" {
+					hmu.Lock()
+					defer hmu.Unlock()
+					return prepared
+				}
+				return len(a.Writes()) > 0
+			}
 			rs := ref.State{Name: "eth0", MAC: a.macOf(0).String(), Forwarding: true, Routes: []string{"2001:db8:f000::/48"}}
 			rs.Addrs, _ = c17Addresser{}.AddressesByIndex(1)
 			wantPrefixes := func() []string {
@@ -151,14 +160,16 @@ func c17SchedScenario(c c17SchedCase) *vsched.Scenario {
 					if len(body.Interfaces) != 1 || body.Interfaces[0].Advertisement.Life != 12 || fmt.Sprint(ps) != fmt.Sprint(wantPrefixes()) || !strings.Contains(rec.Body.String(), "64:ff9b::/96") {
 						addResult(fmt.Sprintf("BAD api %s body %s", tag, rec.Body.String()))
 					} else {
-						addResult("ok api "+tag)
+						addResult("ok api " + tag)
 					}
 				default:
-					addResult("ok api "+tag+" (error before initialisation)")
+					addResult("ok api " + tag + " (error before initialisation)")
 				}
 				vsched.Obs("api", "%s status=%d", tag, rec.Code)
 			}
-			x.Spawn("advertiser", a.run)
+			if c.Phase != "prepare" {
+				x.Spawn("advertiser", a.run)
+			}
 			x.Spawn("scraper", func() {
 				if c.Phase == "reinit" {
 					vsched.Sleep(5 * time.Second)
@@ -173,6 +184,26 @@ func c17SchedScenario(c c17SchedCase) *vsched.Scenario {
 				api("1")
 				api("2")
 			})
+			if c.Phase == "prepare" {
+				// No advertiser: a thread (re)binds the interface's plugins as Run does at
+				// every (re)initialisation, twice, while the requests are being served. It is
+				// started after the request threads: in the canonical schedule they go first,
+				// and one delay of a request in mid-flight lets the re-binding overtake it.
+				x.Spawn("preparer", func() {
+					for round := 0; round < 2; round++ {
+						nif := &net.Interface{Index: 1, Name: "eth0", HardwareAddr: a.macOf(round)}
+						for _, p := range cfg.Interfaces[0].Plugins {
+							if err := p.Prepare(nif); err != nil {
+								panic(err)
+							}
+						}
+						hmu.Lock()
+						prepared = true
+						hmu.Unlock()
+						vsched.Obs("prepared", "round=%d", round)
+					}
+				})
+			}
 			x.Spawn("driver", func() {
 				defer a.done()
 				defer system.VerifSetAddresser(nil)
@@ -183,6 +214,9 @@ func c17SchedScenario(c c17SchedCase) *vsched.Scenario {
 				}
 				// (phase "start": no Mark - every choice point from the beginning is branched on.)
 				vsched.Sleep(3 * time.Second)
+				if c.Phase == "prepare" {
+					rs.MAC = a.macOf(1).String()
+				}
 				scrape("final")
 				api("final")
 				a.cancel()
@@ -212,6 +246,9 @@ func c17SchedScenario(c c17SchedCase) *vsched.Scenario {
 		if n != 6 {
 			out = append(out, [2]string{"C17:sched:request-did-not-complete", fmt.Sprintf("%d of 6 requests completed: %v", n, results)})
 		}
+		if c.Phase == "prepare" {
+			return out
+		}
 		if ret, err, _ := a.returned(); !ret || err != nil {
 			out = append(out, [2]string{"C17:sched:run", fmt.Sprintf("Run returned=%t err=%v", ret, err)})
 		}
@@ -220,14 +257,16 @@ func c17SchedScenario(c c17SchedCase) *vsched.Scenario {
 	return sc
 }
 
+var c17SchedCases = []c17SchedCase{{"start", "start"}, {"reinit", "reinit"}, {"prepare", "prepare"}}
+
 func TestVerifC17Sched(t *testing.T) {
 	r := ev.Begin("C17", "sched")
 	defer r.End(t)
-	r.Rule = "executions = goroutine schedules within the deviation bound of the instrumented real Advertiser (wildcard prefix/route/RDNSS, deprecated prefix, PREF64; interface not ready on the first dial) with a scraper thread (2 scrapes) and an API client (2 requests) started (a) together with Run, (b) together with a link change that forces re-initialisation, plus one final scrape/request; oracle: no panic, no hang, all 6 requests complete; an error only while nothing has ever been sent; otherwise the advertised prefixes, router lifetime and PREF64 equal the reference RA"
+	r.Rule = "executions = goroutine schedules within the deviation bound of the instrumented real Advertiser (wildcard prefix/route/RDNSS, deprecated prefix, PREF64; interface not ready on the first dial) with a scraper thread (2 scrapes) and an API client (2 requests) started (a) together with Run, (b) together with a link change that forces re-initialisation, (c) together with a thread that re-binds (Prepare) all plugins of the interface twice, plus one final scrape/request; oracle: no panic, no hang, all 6 requests complete; an error only while nothing has ever been sent; otherwise the advertised prefixes, router lifetime and PREF64 equal the reference RA"
 	bound := 1
 	if r.Thorough() {
 		bound = 2
 	}
-	cases := []c17SchedCase{{"start", "start"}, {"reinit", "reinit"}}
+	cases := c17SchedCases
 	exploreCases(t, r, cases, func(c c17SchedCase) string { return c.Name }, c17SchedScenario, exploreOpts{Bound: bound, Budget: 120 * time.Second})
 }
